@@ -64,8 +64,8 @@ CLAIMED = {
             "PARTIAL (dict layer): PyYAML's text layer is trusted to round-trip plain data and is only exercised on replayed witnesses/counterexamples; one string / one file; symmetric routes and a common default route; "
             "cost-function variables and external 'source:' constraints outside.", "4/C14", S),
     "C15": ("S", "Instances of 54 message classes (all algorithms, orchestration, discovery, replication) with symbolic numeric contents and solver-chosen discrete contents, "
-                 "computation definitions of the four graph models built from symbolic DCOPs, and AgentDef objects go through the repository's simple_repr -> JSON round-trip model -> from_repr "
-                 "(or __getstate__/__setstate__); field-by-field equality incl. relation values on every assignment is one z3 query per path. Two listed findings (infinite bounds are not JSON-encodable).",
+                 "computation definitions of the four graph models built from symbolic DCOPs, and AgentDef objects are sent with the repository's HttpCommunicationLayer.send_msg (requests.post and the module's json replaced by a recorder / a front keeping symbolic numbers), parsed like do_POST and decoded with from_repr "
+                 "(AgentDef: __getstate__/__setstate__); field-by-field equality incl. relation values on every assignment is one z3 query per path. Three findings about infinite floats refused by the encoder were repaired by one fix (8fa49bd).",
             "JSON is a 25-line model (real json module in concrete replay); strings come from small fixed sets; the HTTP socket is not exercised. Engine S is used instead of CrossHair (design change, see DESIGN).", "4/C15", S),
     "C16": ("S", "The DCOP structure (number of constraints, every scope) is the solver-chosen input of the three real graph builders; each explored path fixes one structure and the "
                  "builders' output is compared with the definitions computed from the scopes; the frontier is exhausted, i.e. every structure in the bound is decided.",
